@@ -125,7 +125,10 @@ class CGen:
             L.append(f"{self.num()} GOSUB {sub}:{self.stmts(1)}")
         elif k == 10 and len(later) >= 2:
             t = r.sample(later, 2)
-            L.append(f"{self.num()} ON {r.choice('ABCN')} GOTO {t[0]},{t[1]}")
+            # the selector may be out of range: then the statements after the colon run
+            tail = r.choice(["", "", ":" + self.stmts(1), ":" + self.stmts(1) + ":GOTO " + str(r.choice(later)),
+                             ":" + self.stmts(1) + ":" + r.choice(["END", "STOP"])])
+            L.append(f"{self.num()} ON {r.choice('ABCN')} GOTO {t[0]},{t[1]}{tail}")
         elif k == 11 and self.subs:
             subs = [int(s.split(' ')[0]) for s in self.subs]
             L.append(f"{self.num()} ON {r.choice('ABCN')} GOSUB {','.join(str(x) for x in r.sample(subs, min(2, len(subs))))}:{self.stmts(1)}")
@@ -166,6 +169,11 @@ PROBES = [
     "10 GOSUB 100:PRINT \"BACK\":END\n100 PRINT \"IN\":RETURN",
     "10 ON A GOSUB 100,200:PRINT \"BACK\":END\n100 PRINT \"S1\":RETURN\n200 PRINT \"S2\":RETURN",
     "10 ON A GOTO 30,40\n20 PRINT \"FALL\"\n30 PRINT \"T3\"\n40 PRINT \"T4\"",
+    "10 ON A GOTO 100,200:PRINT \"NEITHER\":GOTO 300\n100 PRINT \"ONE\":GOTO 300\n200 PRINT \"TWO\"\n300 PRINT \"DONE\"",
+    "10 ON N GOTO 100,200:PRINT \"NEITHER\":STOP\n100 PRINT \"ONE\":END\n200 PRINT \"TWO\"",
+    "10 IF B>0 THEN ON A GOTO 100,200:PRINT \"NEITHER\"\n20 PRINT \"NEXT\":END\n100 PRINT \"ONE\":END\n200 PRINT \"TWO\"",
+    "10 ON A GOSUB 100,200:PRINT \"BACK\":ON B GOTO 300,400:PRINT \"FALL\"\n20 END\n100 PRINT \"S1\":RETURN\n200 PRINT \"S2\":RETURN\n300 PRINT \"T3\":END\n400 PRINT \"T4\"",
+    "10 GOSUB 100:PRINT \"A\":GOSUB 100:PRINT \"B\":END\n100 PRINT \"IN\":RETURN:PRINT \"DEAD\"",
     "10 A=A+1:IF A<4 THEN 10\n20 PRINT A",
     "10 PRINT \"S\":STOP\n20 PRINT \"NEVER\"",
     "10 FOR I=3 TO 1 STEP -1:PRINT I:NEXT I\n20 PRINT \"D\"",
